@@ -86,3 +86,8 @@ package operator
 //@   deterministic [C42.lfs_proxy_metrics_service.render_inputs_no_clock_random_or_map_order] except copyStringMap, cloneResourceList
 //@   static_only C42
 
+// The etcd endpoint resolution computes values the mutate closures render from (Reconcile itself stamps status
+// conditions with the clock, which is outside the rendered objects and not under this clause).
+//@ func EnsureEtcd
+//@   deterministic [C42.etcd_resolution.no_clock_random_or_map_order] except copyStringMap, cloneResourceList
+//@   static_only C42
